@@ -312,13 +312,24 @@ inline typename Enable_If<Is_Singleton<Type>::value
                           || Is_Interval<Type>::value, bool>::type
 Interval<Boundary, Info>::can_be_exactly_joined_to(const Type& x) const {
   PPL_DIRTY_TEMP(Boundary, b);
+  // The intervals are disjoint: the union is an interval iff they touch
+  // in a value that belongs to one of them, i.e., the two boundaries have
+  // the same value and are not both open.
   if (gt(LOWER, lower(), info(), UPPER, f_upper(x), f_info(x))) {
-    b = lower();
-    return eq(LOWER, b, info(), UPPER, f_upper(x), f_info(x));
+    if (lower_is_boundary_infinity()
+        || Boundary_NS::is_boundary_infinity(UPPER, f_upper(x), f_info(x))) {
+      return false;
+    }
+    return lower() == f_upper(x)
+      && !(lower_is_open() && Boundary_NS::is_open(UPPER, f_upper(x), f_info(x)));
   }
   else if (lt(UPPER, upper(), info(), LOWER, f_lower(x), f_info(x))) {
-    b = upper();
-    return eq(UPPER, b, info(), LOWER, f_lower(x), f_info(x));
+    if (upper_is_boundary_infinity()
+        || Boundary_NS::is_boundary_infinity(LOWER, f_lower(x), f_info(x))) {
+      return false;
+    }
+    return upper() == f_lower(x)
+      && !(upper_is_open() && Boundary_NS::is_open(LOWER, f_lower(x), f_info(x)));
   }
   return true;
 }
